@@ -185,15 +185,64 @@ def free_names(test: ast.AST) -> Set[str]:
     return {n.id for n in ast.walk(test) if isinstance(n, ast.Name)} - bound
 
 
+def _bf_to_json(f):
+    return [f[0]] + [(_bf_to_json(x) if isinstance(x, tuple) and x and x[0] in ("T", "F", "a", "not", "and", "or") else
+                      ([_bf_to_json(y) for y in x] if isinstance(x, tuple) else x)) for x in f[1:]]
+
+
+def _bf_from_json(j):
+    if j[0] in ("T", "F"):
+        return (j[0],)
+    if j[0] == "a":
+        return ("a", j[1])
+    if j[0] == "not":
+        return ("not", _bf_from_json(j[1]))
+    return (j[0], tuple(_bf_from_json(x) for x in j[1]))
+
+
+def _split_raise_test(t: ast.AST, pol: bool):
+    """Disjuncts of the raising condition; `not all(P for x in X)` / `any(Q for x in X)` become per-element sites
+    (generators, element test, polarity) - the same thing as an explicit loop with `if not P: raise`."""
+    if isinstance(t, ast.UnaryOp) and isinstance(t.op, ast.Not):
+        return _split_raise_test(t.operand, not pol)
+    if isinstance(t, ast.BoolOp) and ((isinstance(t.op, ast.Or) and pol) or (isinstance(t.op, ast.And) and not pol)):
+        out = []
+        for v in t.values:
+            out += _split_raise_test(v, pol)
+        return out
+    if isinstance(t, ast.Call) and isinstance(t.func, ast.Name) and t.func.id in ("all", "any") and len(t.args) == 1 and \
+            isinstance(t.args[0], (ast.GeneratorExp, ast.ListComp)) and (t.func.id == "all") != pol:
+        g = t.args[0]
+        # raising condition:  not all(P)  == exists x: not P ;  any(Q) == exists x: Q
+        return [(g.elt, t.func.id == "any", g.generators)]
+    return [(t, pol, None)]
+
+
 def sites_in(f: FuncInfo) -> List[Dict[str, object]]:
-    """All `if T: ... raise` sites of a function: the innermost test is the site's test, outer ones its context."""
+    """All `if T: ... raise` sites of a function in canonical form.  The raising condition is split into its disjuncts;
+    loop variables are renamed positionally (L<depth>_<i>), single-definition locals are substituted, tests and contexts are
+    propositional normal forms (sa.boolnf) - so renamed variables, De Morgan rewrites, merged or split `if`s, `all()` versus an
+    explicit loop give the same rows."""
+    from sa import boolnf as B
+    from sa.mir import Renamer, _rename_comprehensions, canon_iter
+    import copy as _copy
     out = []
     seen = set()
     from rules.common import local_single_defs, substitute_locals
     defs = local_single_defs(f.node)
+    pm_ = parents_map(f.node)
 
-    def cg(t, p):
-        return canon_guard(substitute_locals(t, defs), p)
+    def loops_of(node) -> List[ast.AST]:
+        chain = []
+        cur = node
+        while id(cur) in pm_:
+            cur = pm_[id(cur)]
+            if isinstance(cur, (ast.For, ast.While)):
+                chain.append(cur)
+            if isinstance(cur, (ast.FunctionDef, ast.Lambda)):
+                break
+        return list(reversed(chain))
+
     for r in walk_no_nested(f.node):
         if not isinstance(r, ast.Raise):
             continue
@@ -201,9 +250,7 @@ def sites_in(f: FuncInfo) -> List[Dict[str, object]]:
         if not direct:
             continue
         t, pol = direct[0]
-        # the If that directly guards the raise
         holder = None
-        pm_ = parents_map(f.node)
         cur_ = r
         while id(cur_) in pm_:
             cur_ = pm_[id(cur_)]
@@ -211,19 +258,51 @@ def sites_in(f: FuncInfo) -> List[Dict[str, object]]:
                 holder = cur_
                 break
         tests = [(t, pol)] + (path_conditions(f.node, holder) if holder is not None else direct[1:])
-        # the raise must be a direct child of that If branch (possibly after logging)
         key = (id(t), pol)
         if key in seen:
             continue
         seen.add(key)
         loop = enclosing_loop(f.node, r)
-        ctx = []
-        for (ct, cp) in tests[1:]:
-            # only conditions inside the same loop region matter for per-iteration sites
-            ctx.append(cg(ct, cp))
+        chain = loops_of(r)
+        mapping: Dict[str, str] = {}
+        for depth, lp in enumerate(chain):
+            if isinstance(lp, ast.For):
+                for j, nme in enumerate([n.id for n in ast.walk(lp.target) if isinstance(n, ast.Name)]):
+                    mapping[nme] = f"L{depth}_{j}"
+        ldefs = {k: v for k, v in defs.items() if k not in mapping}
+
+        def C(e, extra=None):
+            m = dict(mapping)
+            if extra:
+                m.update(extra)
+            x = substitute_locals(e, ldefs)
+            x = Renamer(m).visit(_copy.deepcopy(x))
+            return _rename_comprehensions(x)
+        ctx_f = B.mk_and([B.parse_pol(C(ct), cp) for ct, cp in tests[1:]])
         isve = raise_is_value_error(r, f.node)
-        out.append({"test": cg(t, pol), "context": ctx, "loop": norm(loop.iter) if isinstance(loop, ast.For) else (norm(loop.test) if loop is not None else None),
-                    "exc": "ValueError" if isve else ("re-raise" if isve is None else "other"), "_node": r, "_test": t, "_pol": pol, "_loop": loop, "_tests": tests})
+        base_loop = canon_iter(C(loop.iter)) if isinstance(loop, ast.For) else (norm(C(loop.test)) if loop is not None else None)
+        for (dt, dpol, gens) in _split_raise_test(t, pol):
+            if gens is None:
+                tf = B.parse_pol(C(dt), dpol)
+                lp_txt = base_loop
+                cf = ctx_f
+            else:
+                extra = {}
+                conds = []
+                depth0 = len(chain)
+                lp_txt = None
+                for gi, g in enumerate(gens):
+                    lp_txt = canon_iter(C(g.iter, extra))
+                    for j, nme in enumerate([n.id for n in ast.walk(g.target) if isinstance(n, ast.Name)]):
+                        extra[nme] = f"L{depth0 + gi}_{j}"
+                    conds += [B.parse(C(c, extra)) for c in g.ifs]
+                tf = B.parse_pol(C(dt, extra), dpol)
+                cf = B.mk_and([ctx_f] + conds)
+            if tf in (B.T, B.F):
+                continue
+            out.append({"test": B.key(tf), "context": B.key(cf), "context_f": _bf_to_json(cf), "loop": lp_txt,
+                        "exc": "ValueError" if isve else ("re-raise" if isve is None else "other"),
+                        "_node": r, "_test": t, "_pol": pol, "_loop": loop, "_tests": tests, "_ctx": cf})
     return out
 
 
@@ -304,6 +383,11 @@ def check_sites(prog: Program, rep, RID: str, only_funcs=None, skip_funcs=None):
             n += 1
             key = f"{fkey.split(':')[1]}:reject[{row['test'][:70]}]"
             cands = [s for s in cur if s["test"] == row["test"] and s["loop"] == row["loop"]]
+            if len(cands) > 1:
+                # several raises with the same canonical test: prefer the one whose context is implied by the tabled one
+                from sa import boolnf as _B0
+                want0 = _bf_from_json(row["context_f"]) if "context_f" in row else _B0.T
+                cands = sorted(cands, key=lambda c_: (not _B0.implies(want0, c_["_ctx"]), ))
             if not cands:
                 near = [s for s in cur if set(re.findall(r"\w+", s["test"])) & set(re.findall(r"\w+", row["test"]))]
                 rep.violation(RID, key, f"validation site vanished or changed: no `raise ValueError` guarded by `{row['test']}`"
@@ -314,12 +398,13 @@ def check_sites(prog: Program, rep, RID: str, only_funcs=None, skip_funcs=None):
             if s["exc"] == "other":
                 rep.violation(RID, key, "the site raises an exception other than ValueError", f.loc(s["_node"]))
                 continue
-            if sorted(s["context"]) != sorted(row["context"]):
-                extra = sorted(set(s["context"]) - set(row["context"]))
-                if extra:
-                    rep.violation(RID, key, f"the rejection `{row['test'][:70]}` is now only reached under the additional condition(s) {extra}: inputs violating it "
-                                  "on the other branch are accepted", f.loc(s["_node"]))
-                    continue
+            from sa import boolnf as _B
+            want_ctx = _bf_from_json(row["context_f"]) if "context_f" in row else _B.T
+            if not _B.implies(want_ctx, s["_ctx"]):
+                wit = _B.witness(_B.mk_and([want_ctx, _B.mk_not(s["_ctx"])]), _B.F)
+                rep.violation(RID, key, f"the rejection `{row['test'][:70]}` is now only reached under the additional condition [{_B.key(s['_ctx'])[:160]}] "
+                              f"(was: [{row['context'][:120]}]): inputs violating it on the other branch are accepted", f.loc(s["_node"]))
+                continue
             # dominance by dataflow
             ok, why = dominance(prog, f, s)
             if ok:
